@@ -135,6 +135,9 @@ type netNode struct {
 	logs   *observer.ObservedLogs
 	runErr chan error
 	closed bool
+	// cpHeight > 0: the node was started from a checkpoint at that height and
+	// has no history below it
+	cpHeight uint64
 }
 
 func newNetNode(e *sim.Env, inv string, net_ *gen.Net, nw *simnet.Net, i int, cm syncer.ChainManager, s *chainSUT, opts ...syncer.Option) *netNode {
@@ -207,6 +210,9 @@ func auditNode(e *sim.Env, inv string, n *netNode, tree *gen.Tree) *gen.Node {
 	}
 	path := tipNode.PathFromGenesis()
 	for h, x := range path {
+		if uint64(h) < n.cpHeight {
+			continue
+		}
 		idx, ok := n.s.cm.BestIndex(uint64(h))
 		if !ok || idx.ID != x.ID {
 			if other, ok2 := tree.ByID[idx.ID]; ok2 && !other.Valid() {
@@ -223,7 +229,17 @@ func feed(e *sim.Env, inv string, n *netNode, target *gen.Node) {
 	if target.Parent == nil {
 		return
 	}
-	if err := n.s.cm.AddBlocks(blocksOf(target.PathFromGenesis()[1:])); err != nil {
+	path := target.PathFromGenesis()[1:]
+	if n.cpHeight > 0 {
+		// a checkpoint node has (and accepts) nothing at or below its checkpoint
+		for len(path) > 0 && path[0].Height <= n.cpHeight {
+			path = path[1:]
+		}
+		if len(path) == 0 {
+			return
+		}
+	}
+	if err := n.s.cm.AddBlocks(blocksOf(path)); err != nil {
 		e.Violationf(inv+".valid-accepted", "feed", "%s rejected its own valid branch %s: %v", n.name, target.Describe(), err)
 	}
 }
